@@ -10,7 +10,7 @@ RULE = ("stateful: 1-3 live SequenceParameters objects over generated sequences 
         "x a history of up to 25 (quick) / 50 (thorough) read-only queries with generated arguments drawn from the whole get_* API "
         "(incl. get_deltaMax(False/True), get_kappa_X(groups), get_linear_*(w), get_linear_sequence_composition with and without groups, "
         "get_linear_complexity, get_reduced_alphabet_sequence, pH getters, phospho getters, get_HTMLColorString, len, str), repetition allowed. "
-        "A shuffle op turns get_shuffled_sequence() of a live object (optionally after asking it for its delta-max permutant) into a further live object that must answer like a fresh object built from its own sequence. Mutable arguments (groups, user alphabets) are caller-owned containers refilled in place from call to call, and every returned list/dict/array is overwritten by the harness after it has been recorded. Oracle: each result (or exception type) is compared bit-for-bit (arrays with array_equal, containers structurally) with (a) the same "
+        "A shuffle op turns get_shuffled_sequence() of a live object (optionally after asking it for its delta-max permutant) into a further live object that must answer like a fresh object built from its own sequence. Mutable arguments (groups, user alphabets) are caller-owned containers refilled in place from call to call, and every returned list/dict/array is overwritten by the harness after it has been recorded. Queries other than the four phospho read-outs are also compared with an object of the same sequence without phosphosites. Oracle: each result (or exception type) is compared bit-for-bit (arrays with array_equal, containers structurally) with (a) the same "
         "query on a freshly constructed object and (b) the baseline recorded the first time that (sequence, phosphosites, query, args) was seen "
         "in the process; after every step the stored sequence and phosphosite list of every live object are unchanged. Non-trivial: >=2 queries "
         "on one object of which an earlier one can write state (kappa / deltaMax / Omega / phospho-kappa / default-argument calls); distinct "
@@ -31,6 +31,8 @@ NOARG = ["get_sequence", "get_length", "get_mean_hydropathy", "get_uversky_hydro
          "get_linear_sequence_composition", "get_reduced_alphabet_sequence", "get_linear_complexity", "__len__", "__str__"]
 WRITERS = {"get_kappa", "get_deltaMax", "get_Omega", "get_kappa_after_phosphorylation", "get_full_phosphostatus_kappa_distribution",
            "get_linear_sequence_composition", "get_reduced_alphabet_sequence", "get_linear_complexity", "get_kappa_X"}
+
+PHOS_DEPENDENT = {"get_phosphosites", "get_kappa_after_phosphorylation", "get_full_phosphostatus_kappa_distribution", "get_phosphosequence"}
 
 _BASELINE = {}
 
@@ -154,6 +156,10 @@ class Sim:
         fresh = do(self.build(i), q, qa, shared=True)
         what = "%s(%s) on object %d (%s, phosphosites %r) after %r" % (q, "" if qa is None else repr(qa)[1:-1], i, seq, phos, self.per_obj[i][-6:])
         self.ctx.check(got == fresh, "differs-from-fresh:" + q, "%s returned %s; a fresh object returns %s" % (what, str(got)[:300], str(fresh)[:300]))
+        if phos and q not in PHOS_DEPENDENT:
+            # every other analysis is an analysis of the stored sequence: marking phosphosites must not change it
+            plain = do(util.sp(seq), q, qa, shared=True)
+            self.ctx.check(got == plain, "depends-on-phosphosites:" + q, "%s returned %s; an object of the same sequence without phosphosites returns %s" % (what, str(got)[:300], str(plain)[:300]))
         key = case_hash([seq, phos, q, qa])
         base = _BASELINE.setdefault(key, fresh)
         self.ctx.check(got == base, "differs-from-baseline:" + q, "%s returned %s; the first answer seen in this process was %s" % (what, str(got)[:300], str(base)[:300]))
